@@ -32,8 +32,12 @@
  *                     the String is untouched (String_Format_To after a626877)
  *   pfrej k pos T     print_to_with(s, pos, T "%lcZ", tuple($I(0x10FFFF))): T is written, then FormatError leaves
  *   scanw k pos       scan_from(s, pos, "%s", word) reading from the String at pos <= len (observer)
- *   len k | cstr k | cmp k T | cmps k j | eq k T | mem k T | hash k
- *   alias <concat|append|assign|rem|mem|cmp> T   the aliased call op(s, s) in a forked child; reported on I lines only
+ *   len k | cstr k | cmp k T | cmps k j | eq k T | mem k T | hash k   (hash prints the value: the Lean side computes hash_data's model, C10)
+ *   alias <assign|concat|append|print|rem|mem|cmp> <self|v<off>> T [pos]
+ *                     the call with an operand that IS the target (self) or the view $S(c_str(s) + off) into its buffer, on a fresh
+ *                     String holding T, in a forked child; print = print_to(s, pos, "%s", obj).  assign / concat / append / print:
+ *                     known finding KF-C16-alias-operand (sig=kf-c16-alias-operand; witness corpus/kf_c16_alias.ops; never generated);
+ *                     rem / mem / cmp make no realloc and are checked against libc by value like any other call
  */
 #include <stdlib.h>
 #include <string.h>
@@ -220,35 +224,81 @@ static int ref_whole(const char* fmt, PArg** a, int ns, const char* cls, char* o
   #undef W2
 }
 
-static void alias_probe(const char* what, const char* text, const char* hex) {
+/* alias <what> <self|v<off>> <T> [pos]: the call what(s, obj) on a fresh s = new(String, $S(T)) whose operand obj IS s (`self`) or
+ * is the stack String $S(c_str(s) + off) (`v<off>`, off <= len): the operand's bytes lie in the target's own allocation.
+ * what = assign | concat | append | print (print_to(s, pos, "%s", obj)) | rem | mem | cmp.  Runs in a forked child (the library
+ * reads through a stale pointer after realloc: known finding KF-C16-alias-operand); the parent classifies:
+ *     O alias <what> <src> ub                                  the child died / the sanitizer reported
+ *     O alias <what> <src> <outcome> len= cap= s= fnv=         it returned (mutators and rem);  O alias mem|cmp <src> <value>
+ * and the direct oracle compares a normal return with libc applied BY VALUE to the operand's text.  A sanitizer report or a
+ * wrong text in assign / concat / append / print is `sig=kf-c16-alias-operand`; rem / mem / cmp make no realloc and must simply be
+ * right (`sig=str-alias-readonly`, an ordinary violation). */
+#define ALIAS_MAXT 512
+static void alias_op(const char* what, long off, const char* srct, const char* text, long pos) {
   int fd[2], er[2]; if (pipe(fd) || pipe(er)) return;
+  size_t tl = strlen(text);
+  const char* x = text + (off < 0 ? 0 : off);                   /* the operand's text when the call is made */
+  int mut = !strcmp(what, "assign") || !strcmp(what, "concat") || !strcmp(what, "append") || !strcmp(what, "print");
   fflush(stdout);
   pid_t pid = fork();
   if (pid == 0) {
-    close(fd[0]); close(er[0]); dup2(er[1], 2); alarm(10);
+    close(fd[0]); close(er[0]); dup2(er[1], 2); alarm(20);
     var s = new_raw(String, $S((char*)text));
-    char res[64] = "";
-    var exc = NULL;
-    if (!strcmp(what, "concat")) V_TRY(exc, concat(s, s));
-    else if (!strcmp(what, "append")) V_TRY(exc, append(s, s));
-    else if (!strcmp(what, "assign")) V_TRY(exc, assign(s, s));
-    else if (!strcmp(what, "rem")) V_TRY(exc, rem(s, s));
-    else if (!strcmp(what, "mem")) snprintf(res, sizeof res, "mem=%d ", (int)mem(s, s));
-    else if (!strcmp(what, "cmp")) snprintf(res, sizeof res, "cmp=%d ", sign(cmp(s, s)));
-    char* v = ((struct String*)s)->val; size_t l = strlen(v);
-    dprintf(fd[1], "%sexc=%s len=%zu text=", res, v_exc_name(exc), l);
-    for (size_t i = 0; i < l && i < 64; i++) dprintf(fd[1], "%02x", (unsigned char)v[i]);
+    var view = $S(c_str(s) + (off < 0 ? 0 : off));
+    var obj = off < 0 ? s : view;
+    var exc = NULL; int ret = 0; char oc[48] = "";
+    if (!strcmp(what, "concat")) V_TRY(exc, concat(s, obj));
+    else if (!strcmp(what, "append")) V_TRY(exc, append(s, obj));
+    else if (!strcmp(what, "assign")) V_TRY(exc, assign(s, obj));
+    else if (!strcmp(what, "print")) V_TRY(exc, ret = print_to(s, (int)pos, "%s", obj));
+    else if (!strcmp(what, "rem")) V_TRY(exc, rem(s, obj));
+    else if (!strcmp(what, "mem")) { dprintf(fd[1], "%d\n", (int)mem(s, obj)); _exit(0); }
+    else { dprintf(fd[1], "%d\n", sign(cmp(s, obj))); _exit(0); }
+    char* v = ((struct String*)s)->val; size_t l = strlen(v), cap = v_alloc_size(v);
+    char pre[40]; hexpre(v, l, pre);
+    if (exc) snprintf(oc, sizeof oc, "%s", v_exc_name(exc)); else if (!strcmp(what, "print")) snprintf(oc, sizeof oc, "ret=%d", ret); else strcpy(oc, "ok");
+    dprintf(fd[1], "%s len=%zu cap=%zu s=%s fnv=%016llx\n", oc, l, cap, pre, (unsigned long long)fnv64((unsigned char*)v, cap));
+    for (size_t i = 0; i < l && i < 4 * ALIAS_MAXT; i++) dprintf(fd[1], "%02x", (unsigned char)v[i]);
     _exit(0);
   }
   close(fd[1]); close(er[1]);
-  static char ob[4096], eb[1 << 15]; size_t ol = 0, el = 0; ssize_t r;
+  static char ob[16384], eb[1 << 15]; size_t ol = 0, el = 0; ssize_t r;
   while ((r = read(fd[0], ob + ol, sizeof ob - 1 - ol)) > 0) ol += r; ob[ol] = 0; close(fd[0]);
   while ((r = read(er[0], eb + el, sizeof eb - 1 - el)) > 0) el += r; eb[el] = 0; close(er[0]);
   int st = 0; waitpid(pid, &st, 0);
   char kind[128] = "none"; char* a = strstr(eb, "ERROR: AddressSanitizer: ");
-  if (a) { a += strlen("ERROR: AddressSanitizer: "); size_t i = 0; while (a[i] && a[i] != ' ' && a[i] != '\n' && i < sizeof kind - 1) { kind[i] = a[i]; i++; } kind[i] = 0; }
-  if (WIFSIGNALED(st)) I("alias %s(s,s) s=%s -> killed by signal %d asan=%s %s", what, hex, WTERMSIG(st), kind, ob);
-  else I("alias %s(s,s) s=%s -> exit=%d asan=%s %s", what, hex, WEXITSTATUS(st), kind, ob);
+  if (a) { a += strlen("ERROR: AddressSanitizer: "); size_t i = 0; while (a[i] && a[i] != ' ' && a[i] != ':' && a[i] != '\n' && i < sizeof kind - 1) { kind[i] = a[i]; i++; } kind[i] = 0; }
+  const char* sig = mut ? "kf-c16-alias-operand" : "str-alias-readonly";
+  char call[96];
+  if (off < 0) snprintf(call, sizeof call, "%s(s, s)", what); else snprintf(call, sizeof call, "%s(s, $S(c_str(s) + %ld))", what, off);
+  if (!strcmp(what, "print")) { if (off < 0) snprintf(call, sizeof call, "print_to(s, %ld, \"%%s\", s)", pos); else snprintf(call, sizeof call, "print_to(s, %ld, \"%%s\", $S(c_str(s) + %ld))", pos, off); }
+  if (!WIFEXITED(st) || WEXITSTATUS(st) != 0) {
+    O("alias %s %s ub", what, srct);
+    I("alias %s len=%zu -> %s %d asan=%s", call, tl, WIFEXITED(st) ? "exit" : "signal", WIFEXITED(st) ? WEXITSTATUS(st) : WTERMSIG(st), kind);
+    X("sig=%s line=%zu what=%s on a String of %zu chars: the operand lies in the target's own buffer, which realloc has moved or strcat is writing (%s, %s %d)",
+      sig, lineno, call, tl, kind, WIFEXITED(st) ? "exit status" : "signal", WIFEXITED(st) ? WEXITSTATUS(st) : WTERMSIG(st));
+    return;
+  }
+  char* nl = strchr(ob, '\n'); if (nl) *nl = 0;
+  O("alias %s %s %s", what, srct, ob);
+  if (!mut && strcmp(what, "rem")) {                            /* mem / cmp: the value */
+    int want = !strcmp(what, "mem") ? (strstr(text, x) != NULL) : sign(strcmp(text, x));
+    if (atoi(ob) != want) X("sig=%s line=%zu what=%s gives %s, libc on the operand's text says %d", sig, lineno, call, ob, want);
+    return;
+  }
+  /* the by-value result with libc */
+  static char want[4 * ALIAS_MAXT + 8]; int wret = 0;
+  if (!strcmp(what, "assign")) strcpy(want, x);
+  else if (!strcmp(what, "concat") || !strcmp(what, "append")) { strcpy(want, text); strcat(want, x); }
+  else if (!strcmp(what, "print")) { memcpy(want, text, (size_t)pos); wret = (int)pos + snprintf(want + pos, sizeof want - (size_t)pos, "%s", x); }
+  else { strcpy(want, text); char* p = strstr(want, x); if (p) memmove(p, p + strlen(x), strlen(p + strlen(x)) + 1); }
+  static char wanthex[8 * ALIAS_MAXT + 16]; size_t wl = strlen(want);
+  for (size_t i = 0; i < wl; i++) sprintf(wanthex + 2 * i, "%02x", (unsigned char)want[i]); wanthex[2 * wl] = 0;
+  const char* got = nl ? nl + 1 : "";
+  char expoc[48]; if (!strcmp(what, "print")) snprintf(expoc, sizeof expoc, "ret=%d ", wret); else strcpy(expoc, "ok ");
+  if (strcmp(got, wanthex) != 0 || strncmp(ob, expoc, strlen(expoc)) != 0)
+    X("sig=%s line=%zu what=%s on a String of %zu chars returned `%.40s` with a text of %zu chars, by value it is %s with %zu chars", sig, lineno, call, tl, ob, strlen(got) / 2, expoc, wl);
+  I("alias %s len=%zu -> returned %.60s", call, tl, ob);
 }
 
 int main(int argc, char** argv) {
@@ -269,7 +319,21 @@ int main(int argc, char** argv) {
     const char* op = tok[0];
     nops++;
     if (!strcmp(op, "alias")) {
-      if (nt == 3 && dehex(tok[2], t1) >= 0) alias_probe(tok[1], t1, tok[2]); else O("bad-op");
+      /* alias <what> <self|v<off>> <T> [pos] */
+      long off = -1, pos = 0, tl = nt >= 4 ? dehex(tok[3], t1) : -1; int ok = tl >= 0 && tl <= ALIAS_MAXT; char* e2;
+      const char* w = nt >= 2 ? tok[1] : "";
+      int mut = !strcmp(w, "assign") || !strcmp(w, "concat") || !strcmp(w, "append") || !strcmp(w, "print");
+      if (ok && !(mut || !strcmp(w, "rem") || !strcmp(w, "mem") || !strcmp(w, "cmp"))) ok = 0;
+      if (ok && strcmp(tok[2], "self")) {
+        if (tok[2][0] != 'v' || !tok[2][1] || strspn(tok[2] + 1, "0123456789") != strlen(tok[2] + 1) || strlen(tok[2]) > 8) ok = 0;
+        else { off = strtol(tok[2] + 1, &e2, 10); if (off > tl) ok = 0; }
+      }
+      if (ok && mut && tl == 0) ok = 0;                            /* one NUL copied onto itself: undefined on paper only, not run */
+      if (ok && !strcmp(w, "print")) {
+        if (nt != 5 || !tok[4][0] || strspn(tok[4], "0123456789") != strlen(tok[4]) || strlen(tok[4]) > 8) ok = 0;
+        else { pos = strtol(tok[4], &e2, 10); if (pos > tl) ok = 0; }
+      } else if (ok && nt != 4) ok = 0;
+      if (ok) { nmut += mut; alias_op(w, off, tok[2], t1, pos); } else O("bad-op");
       free(copyl); continue;
     }
     int k = -1, j = -1; char* end;
@@ -495,7 +559,7 @@ int main(int argc, char** argv) {
     } else if (!strcmp(op, "hash") && nt == 2) {
       NEED_LIVE(k); nobs++;
       uint64_t h = hash(sobj[k]), h2 = hash($S(rtxt[k])), h3 = hash_data(rtxt[k], strlen(rtxt[k]));
-      O("hash %d %s", k, (h == h2 && h == h3) ? "same" : "diff");
+      O("hash %d %016llx %s", k, (unsigned long long)h, (h == h2 && h == h3) ? "same" : "diff");
       if (h != h2 || h != h3) X("sig=str-hash line=%zu what=hash of the heap String differs from the hash of an equal stack String / of its bytes", lineno);
     } else {
       O("bad-op");
